@@ -559,6 +559,8 @@ class StorageLoop(LoopSpec):
         prop = g.get("role_lookup", (None, None)) if g.get("has_role_entry") else (None, None)
         want = R.outcome(prop, (True, True))[2:]
         got = (f.get("_as_scu"), f.get("_as_scp"))
+        I.ob(f"{P}/storage-like:never-accepted-without-a-usable-role", not (f.get("result") == 0 and got == (False, False)),
+             detail=f"proposal {prop}: result {f.get('result')} roles {got}")
         if g.get("has_role_entry"):
             I.ob(f"{P}/storage-like:roles-are-the-PS3.7-outcome-for-an-acceptor-supporting-both-roles", got == want,
                  detail=f"proposal {prop}: got {got} want {want}")
@@ -594,7 +596,8 @@ class NegUnrestrictedTask(Task):
         def neg_contract(I, args, kw):
             g = I.ghost
             g["normal_call"] = args
-            return ([], [])          # result list to append to (observed per iteration), role replies
+            g["normal_replies"] = [Env("role-reply-of-the-normal-negotiation")]
+            return ([], g["normal_replies"])     # result list to append to (observed per iteration), role replies
         c.summaries[NEG_AC] = neg_contract
         # the storage-class test is opaque: any proposed context may be classified either way
         c.module_consts[("pynetdicom.presentation", "_STORAGE_CLASSES")] = lambda I: Env("_STORAGE_CLASSES")
@@ -640,6 +643,27 @@ class NegUnrestrictedTask(Task):
             probe.fields.update(_context_id=pid)
             sorted_ok = I.call_value(results.key, [probe], {}) is pid
         I.ob(f"{P}/results-are-all-per-context-results-sorted-by-context-id", sorted_ok)
+        # role replies: those of the normally negotiated contexts AND those of the storage-like contexts
+        from pyvc.symcoll import ConcatSeq
+
+        def holds(x, marker):
+            if isinstance(x, SortedView):
+                return holds(x.seq, marker)
+            if isinstance(x, ConcatSeq):
+                return any(holds(p_, marker) for p_ in x.parts)
+            if isinstance(x, (list, tuple)):
+                return any(e is marker for e in x)
+            return False
+
+        def holds_storage(x):
+            if isinstance(x, SortedView):
+                return holds_storage(x.seq)
+            if isinstance(x, ConcatSeq):
+                return any(holds_storage(p_) for p_ in x.parts)
+            return isinstance(x, SymSeq) and x.name.startswith("reply_roles")
+        I.ob(f"{P}/role-replies-of-the-normally-negotiated-contexts-are-returned", holds(replies, g["normal_replies"][0]),
+             detail=repr(replies))
+        I.ob(f"{P}/role-replies-of-the-storage-like-contexts-are-returned", holds_storage(replies), detail=repr(replies))
 
 
 # ---------------------------------------------------------------------------------------------
